@@ -1,6 +1,7 @@
 import Thanos.Common.Parse
 import Thanos.Model.Iter
 import Thanos.Model.ChunkMerge
+import Thanos.Model.ReadPath
 /-
   Line-protocol driver of the `dedup` family (C01 C02 C04 C40).
   One request per line, one answer per line; every line is self-contained.
@@ -17,6 +18,14 @@ import Thanos.Model.ChunkMerge
      chunk    = mint/maxt/A0/A1/A2/A3/A4        Ai = n (aggregate absent) | e (no samples) | t:v,t:v,…
                 (A0..A4 = count, sum, min, max, counter)
      answer   = chunk;chunk;… of the merged series | - (no chunk) | panic
+
+  rp.select <dedup> <wrl> <repFirst> <qmint> <qmaxt> <series>      (C04)   the read path, spec-level composition
+     series   = L|L|…       L = <key>=<rep>;<rep>;…      key = two digits
+                rep   = <rid>@<chunk>+<chunk>+…          rid = one digit
+                chunk = <store>~<rank>~t:v,t:v,…
+     answer   = S|S|…       S = <key>=<samples> (dedup) | <key>.<rid>=<samples> (no dedup); samples = t:v,… | e
+                - = no series;  panic
+     (`wrl` only selects whether stores or the proxy remove the replica label — the same specification)
 -/
 open Thanos Thanos.Parse
 
@@ -110,6 +119,36 @@ def showAggr : Option (List Sample) → String
 def showChunk (c : AggrChk) : String :=
   "/".intercalate ([toString c.mint, toString c.maxt] ++ c.aggr.map showAggr)
 
+def parseRChunk (s : String) : Option RChunk :=
+  match splitChar '~' s with
+  | [st, rk, sm] => do
+    let st ← parseNat? st
+    let rk ← parseNat? rk
+    let sm ← (splitChar ',' sm).mapM parseSample
+    pure { store := st, rank := rk, samples := sm }
+  | _ => none
+
+def parseRReplica (s : String) : Option RReplica :=
+  match splitChar '@' s with
+  | [rid, cs] => do
+    let rid ← parseNat? rid
+    let cs ← (splitChar '+' cs).mapM parseRChunk
+    pure { rid := rid, chunks := cs }
+  | _ => none
+
+def parseRSeries (s : String) : Option RSeries :=
+  match splitChar '=' s with
+  | [key, reps] => do
+    let key ← parseNat? key
+    let reps ← (splitChar ';' reps).mapM parseRReplica
+    pure { key := key, reps := reps }
+  | _ => none
+
+def twoDigits (n : Nat) : String := if n < 10 then s!"0{n}" else toString n
+
+def parseBool? (s : String) : Option Bool :=
+  if s = "1" then some true else if s = "0" then some false else none
+
 /-- which `toChunk` the driver runs: the one of the tree the model follows -/
 def chunkFixed : Bool := true
 
@@ -133,6 +172,17 @@ def handle : List String → String
       | some cs => joinWith ";" (cs.map showChunk)
       | none => "panic"
     | none => "bad-op"
+  | ["rp.select", d, w, rf, qmint, qmaxt, series] =>
+    match parseBool? d, parseBool? w, parseBool? rf, parseInt? qmint, parseInt? qmaxt,
+          (splitChar '|' series).mapM parseRSeries with
+    | some d, some _, some rf, some qmint, some qmaxt, some ss =>
+      let res := selectAll seekFixed d rf qmint qmaxt ss
+      if res.any (fun kv => kv.2.isNone) then "panic" else
+      joinWith "|" (res.map fun kv =>
+        let name := if d then twoDigits kv.1.1
+                    else if rf then s!"{twoDigits kv.1.2}.{kv.1.1}" else s!"{twoDigits kv.1.1}.{kv.1.2}"
+        s!"{name}={showSamples (kv.2.getD [])}")
+    | _, _, _, _, _, _ => "bad-op"
   | _ => "bad-op"
 
 end Thanos.Driver.Dedup
